@@ -141,6 +141,7 @@ static void show_fail(TestReporter *reporter, const char *file, int line,
         }
         memo->printer("\n");
         memo->previous_error = 1;
+        fflush(NULL);
     }
 }
 
